@@ -32,6 +32,7 @@ RULE = (
     "not raise. Non-trivial = a history in which the in-memory proposal was refitted after f already held a proposal, or the "
     "sampler type changed between two samplings into f."
 )
+RULE += " " + ('Further operations: new_instance (another Aspire object with its own, never fitted, supplied proposal takes over the file), sampling without a fit for supplied proposals, and sample steps interrupted by an exception at a generated likelihood call (the invariant is checked on the file the interrupted run leaves).')
 ASSUMPTIONS = [
     "kernel packages are harness doubles; N=12 particles, 1 kernel step, fixed 2-step schedule",
     "save_config=False is only generated when the file's configuration already names the sampler about to run (otherwise the "
